@@ -25,15 +25,25 @@ TRUSTED = [
     "(testing)",
 ]
 ASSUMPTIONS = [
-    "theorems are about one attribute string / one MediaWiki line / one TSV tag row and the abstract traversal; whole-file "
-    "round trips, cross-format equality and the independent XML listing are checked on the implementation only (testing)",
-    "round-trip theorems hold on the stated character classes (attr_ok, name_ok, desc_text_ok/desc_ok, wiki_attr_ok); "
-    "since the repairs fix-F1..F4 (VERIF_C05_FIXED=1, default) the description class is everything the XML reader can "
-    "deliver except text containing '<n' / '</' (the MediaWiki reader deletes nowiki words inside a description: the "
-    "unrepaired rest of finding C05-F3); with VERIF_C05_FIXED=0 model and oracle describe the code before the repairs",
+    "PROVED (all inputs in the stated classes, model at the mode of the current /repo: every repair 4719ff8, 394565c, "
+    "784517a, 8fb8446, 4b4f5c6, f2636f2 is in): the MediaWiki tag section of a merged save decodes to the entries that "
+    "were written (long names/parents, attributes, descriptions) when the entry list is parents-first; one line of every "
+    "other MediaWiki section; the attribute grammar; one TSV tag row and the unit class stub row; the traversal "
+    "selection; the refusal of every multi-library merge",
+    "BY CONSTRUCTION OF THE MODEL ONLY: that the writer's entry list is parents-first (HedSchemaTagSection."
+    "_finalize_section is not modelled); a TSV location is a map from the ten suffixes (file naming not modelled); the "
+    "reader's line splitting is splitting at U+000A; the XML writer is modelled at the name element only",
+    "TESTED ONLY (this harness, on the implementation): the headline clause at whole-schema level -- save;load == "
+    "original for XML/MediaWiki/TSV x merged/unmerged over all bundled schemas and generated edits --, cross-format "
+    "equality, the independent ElementTree listing, the TSV tag table as a whole, header/prologue/epilogue, the '#' line "
+    "layout, unmerged (rooted) MediaWiki sections, XML lexing/pretty printing, pandas CSV I/O, section splitting, the "
+    "partnered merge on load",
+    "open findings: C05-F8 (a TSV save location named *.TSV / *.Tsv cannot be loaded back; fix-F8 proposed), C05-F3 rest (nowiki words inside a description are deleted by the MediaWiki reader) and C05-F6 (a tab "
+    "or line feed in a name admitted through allowedCharacter cannot be held by TSV / MediaWiki); the VERIF_C05_FIXED* "
+    "switches at 0 describe the code BEFORE the corresponding fix commits (records only)",
 ]
 
-FIXED = K.FIXED     # VERIF_C05_FIXED, default 1: the repaired code (fix-F1..F4) and the full statements
+FIXED = K.FIXED     # VERIF_C05_FIXED, default 1: the current code, which contains fix commits 4719ff8 (F1), 394565c (F2), 784517a (F3), 8fb8446 (F4), and the full statements
 DATA = "hed/schema/schema_data"
 LEGACY = ("HED_score_1.0.0.xml", "HED_testlib_1.0.2.xml")
 
@@ -142,6 +152,12 @@ def build_bundled_cases(cs, res, names, hist):
                 res.report("wiki-line-count", {"schema": fn, "merged": m},
                            f"{len(tag_lines)} tag lines for {len(exp)} expected entries")
                 exp = [None] * len(tag_lines)
+            if m:
+                # the whole tag section through the section reader of the model (C05_wiki_tag_section_roundtrip's reader)
+                full = [(e.name, {k: v for k, v in e.attributes.items() if not ((not s.with_standard) and k == "inLibrary")},
+                         e.description) for e in s.tags.all_entries]
+                cs.add("tsection", {"schema": fn, "merged": m, "n": len(tag_lines), "expect": full},
+                       ["tsection", [K.sx_s(x) for x in tag_lines]])
             for ln, ex in zip(tag_lines, exp):
                 cs.add("tline", {"schema": fn, "merged": m, "line": ln, "expect": ex}, ["tline", K.sx_s(ln)])
             for sec, ln in lines:
@@ -389,6 +405,21 @@ def check_case(kind, p, m, res, stats):
         if im != mo:
             return corr(f"lines impl={im} model={mo}")
         return False
+    if kind == "tsection":
+        if m[0] != "ok":
+            res.report("wiki-section-decodes-to-entries", {"schema": p["schema"], "merged": p["merged"]}, f"model section reader: {m}")
+            return False
+        got = [("/".join(K.un_s(c) for c in it[0]), K.un_attrs(it[1]), K.un_desc(it[2])) for it in m[1]]
+        exp = p["expect"]
+        if len(got) != len(exp):
+            res.report("wiki-section-decodes-to-entries", {"schema": p["schema"]}, f"{len(got)} entries decoded, {len(exp)} written")
+            return False
+        for (gn, ga, gd), (en, ea, ed) in zip(got, exp):
+            if gn != en or not same_entry(ga, ea) or gd != (ed or None):
+                res.report("wiki-section-decodes-to-entries", {"schema": p["schema"], "entry": en},
+                           f"decoded=({gn!r}, {ga}, {gd!r}) entry=({en!r}, {ea}, {ed!r})")
+                break
+        return False
     if kind == "rebuild":
         im = K.impl_rebuild(p["lines"])
         mo = ["exn", m[1]] if m[0] == "exn" else ["ok", [[int(x) for x in n] for n in m[1]]]
@@ -582,6 +613,7 @@ def run_codec(tier, rng, res, hist):
                 res.violation("correspondence", {"attrs": p["attrs"]}, "python mirror of attr_ok differs from the model", no_input=True)
     theorem_transfer(cs.items, res, stats)
     check_tsv_tables(res)
+    check_tsv_cells_and_locations(res, rng, stats)
     kinds = {}
     for k, _, _ in cs.items:
         kinds[k] = kinds.get(k, 0) + 1
@@ -594,7 +626,7 @@ def run_codec(tier, rng, res, hist):
 
 # ---------------------------------------------------------------- run
 
-# the repaired findings: only recognised with VERIF_C05_FIXED=0 (record of the code before fix-F1..F4)
+# the repaired findings: only recognised with VERIF_C05_FIXED=0 (record of the code before fix commits 4719ff8 (F1), 394565c (F2), 784517a (F3), 8fb8446 (F4))
 FIXED5 = K.FIXED5   # VERIF_C05_FIXED_F5, default 1: finding C05-F5 (names with an outer non-ASCII blank) repaired by fix commit 4b4f5c6
 LEGACY_FINDINGS = {
     "C05-F1": "description with outer white space kept by the XML reader but stripped by the MediaWiki/TSV readers",
@@ -731,6 +763,45 @@ def check_tsv_tables(res):
             if files != sorted(want):
                 res.report("tsv-file-set", {"schema": fn, "merged": m},
                            f"section files written {files} != the fixed set of the model {sorted(want)}")
+    finally:
+        shutil.rmtree(d, ignore_errors=True)
+
+
+def check_tsv_cells_and_locations(res, rng, stats):
+    """Ties of Model/TsvFiles.v (cells, save locations) to the real pandas / path handling."""
+    exe = C.build_driver("c05")
+    d = C.scratch_dir("hedverif-c05c-")
+    try:
+        texts = [None] + list(K.CELL_SPECIAL) + ['"n/a"', "n/a.", " n/a", "n/a (see parent)", "NA NA", "a\\nb", "\\N", "'NA'"]
+        texts += [(K.g_desc(rng) or "d").replace("\n", " ").replace("\t", " ").replace("\r", " ") for _ in range(40)]
+        got = K.impl_tsv_cells(texts, d)
+        mo = [K.un_desc(x) for x in C.run_driver(exe, [C.to_sx(["cell", K.sx_desc(t)]) for t in texts])]
+        for t, g, m in zip(texts, got, mo):
+            want = t if t else None
+            if g != want:
+                res.report("tsv-cell-texts", {"cell": t}, f"a TSV cell written as {t!r} is read back as {g!r}")
+            elif g != m:
+                res.violation("correspondence", {"kind": "cell", "cell": t}, f"cell impl={g!r} model={m!r}", no_input=True)
+        stats["tsv_cells"] = len(texts)
+        names = list(K.LOC_NAMES) + list(K.LOC_NAMES_UPPER) + [K.g_name(rng) + rng.choice(["", ".", ".1", ".tsv", ".x.y"]) for _ in range(6)]
+        lines, cases = [], []
+        for nm in names:
+            parent = rng.choice([[], ["p"], ["dir.tsv"], ["a.b", "c"]])
+            cases.append((parent, nm))
+            lines.append(C.to_sx(["tsvloc", [K.sx_s(x) for x in parent], K.sx_s(nm)]))
+        for (parent, nm), m in zip(cases, C.run_driver(exe, lines)):
+            written, wanted = K.impl_tsv_location(parent, nm, d)
+            mw = sorted(os.path.join(*[K.un_s(c) for c in f[0]], K.un_s(f[1])) for f in m[0])
+            mr = sorted(os.path.join(*[K.un_s(c) for c in f[0]], K.un_s(f[1])) for f in m[1])
+            if written != wanted:
+                upper = nm.lower().endswith(".tsv") and not nm.endswith(".tsv")
+                res.report("tsv-location-files", {"location": "/".join(parent + [nm])},
+                           f"the writer creates {written[:2]}.. but the reader looks for {wanted[:2]}..",
+                           fid="C05-F8" if (upper and not K.FIXED8) else None)
+            if written != mw or wanted != mr:
+                res.violation("correspondence", {"kind": "tsvloc", "location": "/".join(parent + [nm])},
+                              f"writer impl={written[:2]} model={mw[:2]}; reader impl={wanted[:2]} model={mr[:2]}", no_input=True)
+        stats["tsv_locations"] = len(names)
     finally:
         shutil.rmtree(d, ignore_errors=True)
 
